@@ -12,7 +12,7 @@ import (
 )
 
 func init() {
-	props["C13"] = &propDef{run: runC13, explanation: "Partial ('only if' direction). Decided statically on the patch validators: (K1) the numeric limits and the id pattern — len(id) > 50 rejects, len(service type) > 30 rejects, purposes longer than the 5-entry purpose table reject, ids must match the regexp literal ^[A-Za-z0-9_-]+$ compiled once; (T1) the key-type × purpose matrix extracted from the four package-level literals equals the documented matrix and the purpose table holds the five document.KeyPurpose* constants; (T2) the member-name sets of a key (required, optional, one-of) and of a replace document; (U1) every for-all loop in the validator packages rejects only inside its body (an accepting return inside such a loop validates only a prefix); (G1) per action, success lies behind each documented check for every element (for-all form through helper boundaries): array presence, id rules, duplicate ids, member rule, purposes rule, type/purpose rule, JWK rule, service id/type/endpoint rules with URI validity for a string endpoint and for every string entry of a list endpoint, also-known-as URI parse and uniqueness, replace member set, original-document id/context refusal. Not decided: the 'if' direction; what net/url accepts; JWK well-formedness beyond the presence checks. (U2) every seen-set is searched with the key expression it is filled with. Presence of a key member is tested by comma-ok lookups only; in JWK.Validate each member is demanded only of the key type it belongs to. ParsePublicKeys / ParseServices leave their entry loop only at its end."}
+	props["C13"] = &propDef{run: runC13, explanation: "Partial ('only if' direction). Decided statically on the patch validators: (K1) the numeric limits and the id pattern — len(id) > 50 rejects, len(service type) > 30 rejects, purposes longer than the 5-entry purpose table reject, ids must match the regexp literal ^[A-Za-z0-9_-]+$ compiled once; (T1) the key-type × purpose matrix extracted from the four package-level literals equals the documented matrix and the purpose table holds the five document.KeyPurpose* constants; (T2) the member-name sets of a key (required, optional, one-of) and of a replace document; (U1) every for-all loop in the validator packages rejects only inside its body (an accepting return inside such a loop validates only a prefix); (G1) per action, success lies behind each documented check for every element (for-all form through helper boundaries): array presence, id rules, duplicate ids, member rule, purposes rule, type/purpose rule, JWK rule, service id/type/endpoint rules with URI validity for a string endpoint and for every string entry of a list endpoint, also-known-as URI parse and uniqueness, replace member set, original-document id/context refusal. Not decided: the 'if' direction; what net/url accepts; JWK well-formedness beyond the presence checks. (U2) every seen-set is searched with the key expression it is filled with. Presence of a key member is tested by comma-ok lookups only; in JWK.Validate each member is demanded only of the key type it belongs to. ParsePublicKeys / ParseServices leave their entry loop only at its end. Closed set of refusals of JWK.Validate (exact: member M is empty); accessor hands back the patch's own list; validators test the payload as the document package decodes it."}
 }
 
 func constStringsOfAlloc(c *Ctx, a *ssa.Alloc) []string {
@@ -807,6 +807,36 @@ func (c *Ctx) jwkValidateRules(rule, key string, f *ssa.Function, member func(st
 	// y coordinate of every key that is not Ed25519) refuses keys the constructors accept and the protocol admits
 	{
 		reasons := c.rejectionReasons(f, nil, false, 2)
+		// (a check written as a loop over a table of required members: the reasons of each row)
+		{
+			var concrete []string
+			tabled := false
+			for _, r := range reasons {
+				if strings.Contains(r, "[ι]") {
+					tabled = true
+				} else {
+					concrete = append(concrete, r)
+				}
+			}
+			if tabled {
+				seenR := map[string]bool{}
+				for _, r := range concrete {
+					seenR[r] = true
+				}
+				for _, te := range c.tableLoopEnvsAlt(f, nil) {
+					of, om, ov := c.fnSubst, c.mcSubst, c.valSubst
+					c.fnSubst, c.mcSubst, c.valSubst = te.fns, te.mcs, te.vals
+					for _, r := range c.rejectionReasons(f, te.env, false, 2) {
+						if !seenR[r] {
+							seenR[r] = true
+							concrete = append(concrete, r)
+						}
+					}
+					c.fnSubst, c.mcSubst, c.valSubst = of, om, ov
+				}
+				reasons = concrete // (a row that stays unresolved is reported as it stands)
+			}
+		}
 		// each deciding condition is "member M is empty" for one of the five members, in any spelling of emptiness
 		empt := regexp.MustCompile(`^\((.+) (?:==|!=) ""\)=(?:true|false)$`)
 		emptLen := regexp.MustCompile(`^\(len\((.+)\) (?:==|!=|<=|>|<|>=) (?:0|1)\)=(?:true|false)$`)
